@@ -174,6 +174,12 @@ Stats explore(const Options& o, const Cfg& cfg, Reporter& rep, Agg& total)
                             r = w.apply(ops[k]);
                         }
                         a.count("transitions");
+                        // connection state the canonical dump cannot show: a transaction left open by the call changes every later call
+                        if (sqlite3_get_autocommit(w.handle) == 0)
+                        {
+                            a.violation(std::string(is_v2(sch) ? "v2" : "v1") + "|" + ops[k].f + "|transaction_left_open", "[" + sname + "] " + ops[k].str() + (r.ok ? " returned" : " threw") + " and left a transaction open on the connection", cid);
+                            try { w.exec("ROLLBACK"); } catch (...) {}
+                        }
                         if (r.horizon) a.violation(std::string(is_v2(sch) ? "v2" : "v1") + "|" + ops[k].f + "|sql_statement_does_not_terminate", "a single SQL statement exceeded the VM-step horizon during " + ops[k].str(), cid);
                         bool healthy = D::step(w, m2, ops[k], r, a, cid, true) && !r.horizon;
                         std::string d1 = w.dump();
